@@ -175,3 +175,30 @@ package auth
 //@ func getMalformedPolicyError
 //@   frame none
 //@   ensures {C14} [is-an-error] ret0 != nil
+
+// ---- C10: the object-lock decision ---------------------------------------------------
+// bypassAllowed: the caller holds s3:BypassGovernanceRetention on the key through the bucket policy.
+//@ ghost func bypassAllowed(be Iface, access string, bucket string, key string) bool = \
+//@     polSet(be, bucket) && VerifyBucketPolicy(polDoc(be, bucket), access, bucket, key, BypassGovernanceRetentionAction) == nil
+// objLocked: the decision table of the property statement for one object version.
+//@ ghost func retLocked(doc []byte, bypassOK bool) bool = \
+//@     retMode(doc) != "" && retHasDate(doc) && retDate(doc).After(time.Now()) && \
+//@     (retMode(doc) == types.ObjectLockRetentionModeCompliance || (retMode(doc) == types.ObjectLockRetentionModeGovernance && !bypassOK))
+
+//@ func CheckObjectAccess
+//@   let noKey = iface(s3err.GetAPIError(s3err.ErrNoSuchKey))
+//@   let noCfg = iface(s3err.GetAPIError(s3err.ErrNoSuchObjectLockConfiguration))
+//@   let keyOf = ite(objects[j].Key == nil, "", *objects[j].Key)
+//@   let verOf = ite(objects[j].VersionId == nil, "", *objects[j].VersionId)
+//@   let R = be.GetObjectRetention(ctx, bucket, keyOf, verOf)
+//@   let H = be.GetObjectLegalHold(ctx, bucket, keyOf, verOf)
+//@   let gone = errors.Is(R.1, noKey) || (H.1 != nil && errors.Is(H.1, noKey))
+//@   let bypassOK = bypass && bypassAllowed(be, userAccess, bucket, keyOf)
+//@   let unlocked = gone || ((R.1 == nil ==> !retLocked(R.0, bypassOK)) && (R.1 != nil ==> errors.Is(R.1, noCfg)) \
+//@        && (H.1 == nil ==> !holdOn(be, bucket, keyOf, verOf)) && (H.1 != nil ==> errors.Is(H.1, noCfg)) \
+//@        && (checkDefaultRetention ==> bucketLockConfig.DefaultRetention.Mode != types.ObjectLockRetentionModeCompliance \
+//@             && (bucketLockConfig.DefaultRetention.Mode == types.ObjectLockRetentionModeGovernance ==> bypassOK)))
+//@   at-return {C10} [nil-only-if-every-object-unlocked] when err == nil && be.GetObjectLockConfiguration(ctx, bucket).1 == nil :: \
+//@        ensures bucketLockConfig.Enabled ==> (forall j int :: 0 <= j && j < len(objects) ==> unlocked)
+//@   loop 1 invariant {C10} [bounds] -1 <= rangeindex && rangeindex < len(objects)
+//@   loop 1 invariant {C10} [unlocked-so-far] forall j int :: 0 <= j && j <= rangeindex ==> unlocked
